@@ -143,6 +143,9 @@ Laws ==
     /\ Upper(Upper(s)) = Upper(s) /\ Lower(Lower(s)) = Lower(s)
     /\ Trim(Trim(s)) = Trim(s)
     /\ Contains(s, Trim(s))
+    \* the two formulations of replace and split (StrOps.tla) agree
+    /\ (t # << >> => /\ ReplaceScan(s, t, r) = ReplaceAll(s, t, r)
+                     /\ SplitScan(s, t) = SplitLit(s, t))
     /\ (Trim(s) # << >> => Head(Trim(s)) \notin WS /\ Trim(s)[Len(Trim(s))] \notin WS)
     \* the consistency square
     /\ Contains(s, t) <=> (Find(s, t) >= 0)
